@@ -9,7 +9,7 @@ normpath-kernel). Property theorems only (helper lemmas: Lemmas/PyFns_Paths.lean
 import WzVerif.Gen.PyFns_Paths
 import WzVerif.Lemmas.PyFns_Paths
 import WzVerif.Lemmas.Paths
-import WzVerif.Lemmas.PyFnsEq_Middleware
+import WzVerif.Lemmas.PyFnsEq_SharedData
 namespace Wz.Props.C14T
 open Wz Wz.Pre Wz.PyFnsPaths Wz.Gen.PyFns_Paths Wz.PyFnsEq.Middleware
 
